@@ -55,6 +55,21 @@ def check(run):
         seq.append(wline("witness", (s + 1) % P, 100, 7, path, idx, 5, e))          # other identity, same epoch
         seq.append(wline("witness", s, 101, 7, path, idx, 5, e))                    # other limit
         seqs.append(seq)
+    # values that zero a lane of the native Poseidon state after the first constant addition: sibling / running hash position of
+    # H(left, right) (width 3), the secret / external nullifier position of a1 = H(s, e, m) (width 4), the secret of H(s) (width 2)
+    c2, c3, c4 = (rlngen.round1_constants(zkh, t) for t in (2, 3, 4))
+    for lvl in ([0, 7, 19] if quick else range(20)):
+        for bit, cv in ((1, c3[1]), (0, c3[2])):          # direction 1: the sibling is the LEFT input (lane 1); direction 0: the RIGHT input (lane 2)
+            path = [rand_fr(rng) for _ in range(20)]
+            idx = [rng.getrandbits(1) for _ in range(20)]
+            path[lvl], idx[lvl] = (P - cv) % P, bit
+            seqs.append([wline("witness", rand_fr(rng), 100, 3, path, idx, rand_fr(rng), rand_fr(rng))])
+            seqs.append([wline("calcwit", rand_fr(rng), 100, 3, path, idx, rand_fr(rng), rand_fr(rng))])
+    path0, idx0 = [rand_fr(rng) for _ in range(20)], [rng.getrandbits(1) for _ in range(20)]
+    for (sv, ev) in (((P - c4[1]) % P, rand_fr(rng)), (rand_fr(rng), (P - c4[2]) % P), ((P - c4[1]) % P, (P - c4[2]) % P), ((P - c2[1]) % P, rand_fr(rng)), ((P - c3[1]) % P, rand_fr(rng))):
+        for op in ("witness", "calcwit"):
+            seqs.append([wline(op, sv, 100, 3, path0, idx0, rand_fr(rng), ev)])
+            seqs.append([wline(op, sv, 100, 4, path0, idx0, rand_fr(rng), ev)])      # another message id: a1 must still depend on it
     # all 2^k direction patterns on a short prefix (the remaining levels fixed)
     base = [rand_fr(rng) for _ in range(20)]
     for pat in range(0, 1 << (5 if quick else 10)):
@@ -81,5 +96,5 @@ def check(run):
                                      (m.secret, m.index, m.limit, [f"rln delete {hex(m.index)}"])]:                     # leaf deleted
             rq = rlngen.prove_request(sec, idx_, lim, min(M["mid"], lim - 1), M["ext"], M["signal"])
             seqs.append(M["setup"] + pre + [f"rln prove_req {hx(rq)}"])
-    run.rules.append("witnesses with boundary / random field values in every position, all-zero / all-one / one-hot / random direction patterns, all 2^k patterns on a prefix, consecutive lines that share all but one field (same identity and epoch, other message id / epoch / identity / limit), through proof_values_from_witness (formulas vs the ideal path fold), calculate_rln_witness()[0..6] and bytes 128..288 of generate_rln_proof (registered members and requests that do not match the stored leaf: other limit, other secret, neighbouring position, replaced / deleted leaf); distinct = distinct witness")
+    run.rules.append("witnesses with boundary / random field values in every position, all-zero / all-one / one-hot / random direction patterns, all 2^k patterns on a prefix, values equal to negated first-round Poseidon constants in the sibling / secret / external-nullifier positions (a zero state lane inside the native hash), consecutive lines that share all but one field (same identity and epoch, other message id / epoch / identity / limit), through proof_values_from_witness (formulas vs the ideal path fold), calculate_rln_witness()[0..6] and bytes 128..288 of generate_rln_proof (registered members and requests that do not match the stored leaf: other limit, other secret, neighbouring position, replaced / deleted leaf); distinct = distinct witness")
     run.differential("proof-values", seqs, canon=canon, shrink=False)
